@@ -28,8 +28,9 @@ def b2n (b : Bool) : Nat := if b then 1 else 0
 /-- what the spec demands of one batch of `n` ticks starting at tick `k`:
 (LY after, STAT bits 0..2 after, VBlank requested, STAT requested) -/
 def specBatch (e : LcdSpec.Enables) (lyc k n : Nat) : Nat × Nat × Bool × Bool :=
-  ((LcdSpec.sched (4 * (k + n))).line, LcdSpec.statLow lyc (4 * (k + n)),
-   LcdSpec.anyTick LcdSpec.vblankEv k n, LcdSpec.anyTick (LcdSpec.statEv e lyc) k n)
+  -- `evScan … = (sched (4(k+n)), anyTick vblankEv k n, anyTick (statEv e lyc) k n)` (C14.batch_events_scan)
+  let (_, vb, st) := LcdSpec.evScan e lyc (LcdSpec.sched (4 * k)) k n false false
+  ((LcdSpec.sched (4 * (k + n))).line, LcdSpec.statLow lyc (4 * (k + n)), vb, st)
 
 structure Obs where
   ly : Nat
@@ -55,7 +56,7 @@ def modelStart (stat lyc : Nat) : Lcd.State × Nat × Nat :=
   let (s2, w2) := Lcd.setLyc lyc s1
   (s2, w1, w2)
 
-/-- streams `c14.step`, `c14.run`, `c14.io`: one observation per batch -/
+/-- streams `c14.edge`, `c14.step`, `c14.run`, `c14.io`: one observation per batch -/
 def checkSeq (l : Line) : Verdict := Id.run do
   let stat := l.inN "stat"; let lyc := l.inN "lyc"
   let bs := parseBatches (l.inS "b")
@@ -137,7 +138,7 @@ end C14
 /-- C14 correspondence -/
 def checkC14 (l : Line) : Verdict :=
   if l.stream == "c14.part" then C14.checkPart l
-  else if l.stream == "c14.step" || l.stream == "c14.run" || l.stream == "c14.io" then C14.checkSeq l
+  else if l.stream == "c14.edge" || l.stream == "c14.step" || l.stream == "c14.run" || l.stream == "c14.io" then C14.checkSeq l
   else .bad s!"unknown stream {l.stream}"
 
 end Driver
